@@ -125,6 +125,15 @@ pub enum Waited<T> {
     TimedOut,
 }
 
+impl<T> Waited<T> {
+    pub fn done(self) -> Option<T> {
+        match self {
+            Waited::Done(v) => Some(v),
+            Waited::TimedOut => None,
+        }
+    }
+}
+
 pub async fn within<F: std::future::Future>(d: Duration, f: F) -> Waited<F::Output> {
     match tokio::time::timeout(d, f).await {
         Ok(v) => Waited::Done(v),
